@@ -66,7 +66,7 @@ def min_image_dist(cell, a, b):
 
 
 def build(cellname, patname, copies, rnd, noise=0.0, decoys=0, mirror_decoys=0, near_miss=0, atol=0.05, straddle=True,
-          pattern_override=None, bent=0, tilt=None, scramble=False):
+          pattern_override=None, bent=0, tilt=None, scramble=False, unwrapped=False):
     """Returns dict(structure=Atoms, pattern=Atoms, planted=[index tuples in pattern order], poses=[(rot, trans)])."""
     from mofun import Atoms
     cell = CELLS[cellname] if cellname in CELLS else SMALL_CELLS[cellname]
@@ -120,7 +120,8 @@ def build(cellname, patname, copies, rnd, noise=0.0, decoys=0, mirror_decoys=0, 
         for k in order:
             idxs[k] = len(elements)
             elements.append(els[k])
-            positions.append(wrap(cell, pts[k]))
+            # unwrapped: every second copy is stored whole, as placed (some of its atoms lie outside the box: fractional coordinate < 0 or >= 1)
+            positions.append(pts[k] if (unwrapped and ci % 2 == 0) else wrap(cell, pts[k]))
         if kind == 'copy':
             planted.append(tuple(idxs))
             poses.append((rot, centre))
